@@ -79,6 +79,11 @@ def rho_to_std(rho, sites):
     return a.reshape(D, D)
 
 
+def half_factor(kinds, term, offset=0):
+    """the spec's "Sz" on a spin-1/2 site is twice tenpy's Sz: factor (1/2)^(#Sz acting on H sites)"""
+    return 0.5 ** sum(1 for nm, i in term if nm == 'Sz' and kinds[(i + offset) % len(kinds)] == 'H')
+
+
 def measure_common(m, obj, psi, tab, den, sites_n, env=False):
     """obj: MPS or MPSEnvironment (same measurement API); den: exact denominator (complex)"""
     from tenpy.networks.terms import TermList
@@ -112,17 +117,27 @@ def measure_common(m, obj, psi, tab, den, sites_n, env=False):
         terms.append(term)
         vals.append(hm.gi(num))
     if terms and psi.bc != 'segment':
-        strength = [1.0 + 0.5 * k for k in range(len(terms))]
-        try:
-            got, _ = hm.quiet(obj.expectation_value_terms_sum, TermList(terms, strength))
-        except Exception as e:  # an exception of the code under test is an observable result
-            rp.violation('expectation_value_terms_sum', 'exception', dict(error=repr(e), terms=repr(terms)[:400]),
-                         error=type(e).__name__, L=psi.L)
-            m.ok = False
-            got = None
-        # (documented: the MPSEnvironment variant does not include the norms of bra and ket)
-        if got is not None:
-            m.cmp('expectation_value_terms_sum', got, sum(s * v for s, v in zip(strength, vals)), 1.0 if env else den, rtol=1e-9)
+        # prefactors as an ndarray that the caller keeps; a measurement is a stuttering step: evaluating the same
+        # TermList again, or a new TermList built from the same array, gives the same value and leaves the array alone
+        strength = np.array([1.0 + 0.5 * k for k in range(len(terms))])
+        keep = strength.copy()
+        want = sum(s * v for s, v in zip(keep, vals))
+        tl = TermList(terms, strength)
+        for rnd, tlx in enumerate((tl, tl, None)):
+            try:
+                got, _ = hm.quiet(obj.expectation_value_terms_sum, tlx if tlx is not None else TermList(terms, strength))
+            except Exception as e:  # an exception of the code under test is an observable result
+                rp.violation('expectation_value_terms_sum', 'exception', dict(error=repr(e), terms=repr(terms)[:400]),
+                             error=type(e).__name__, L=psi.L)
+                m.ok = False
+                break
+            # (documented: the MPSEnvironment variant does not include the norms of bra and ket)
+            m.cmp('expectation_value_terms_sum', got, want, 1.0 if env else den, rtol=1e-9, evaluation=rnd)
+            if not np.array_equal(strength, keep):
+                rp.violation('expectation_value_terms_sum', 'caller-array-modified', dict(got=strength.tolist(), expected=keep.tolist()),
+                             evaluation=rnd)
+                m.ok = False
+                break
     # ---- correlation functions
     for key, mat in items(tab['corr']):
         n1, n2, st, sof = key
@@ -158,8 +173,8 @@ def measure_common(m, obj, psi, tab, den, sites_n, env=False):
         if js:
             got = hm.quiet(obj.term_correlation_function_right, tL, tR, 0, js)
             d = dict(items(row))
-            m.cmp('term_correlation_function_right', got, [hm.gi(d[j]) for j in js], den, left=' '.join(x[0] for x in tL),
-                  right=' '.join(x[0] for x in tR))
+            m.cmp('term_correlation_function_right', got, [hm.gi(d[j]) * half_factor(kinds, tL) * half_factor(kinds, tR, j) for j in js], den,
+                  left=' '.join(x[0] for x in tL), right=' '.join(x[0] for x in tR), uniform_chain=len(set(kinds)) == 1)
     for tp, row in items(tab['tcorrL']):
         tL = [(x[0], x[1]) for x in tp[0]]
         tR = [(x[0], x[1]) for x in tp[1]]
@@ -168,8 +183,26 @@ def measure_common(m, obj, psi, tab, den, sites_n, env=False):
             jfix = n - 1 - max(x[1] for x in tR)
             got = hm.quiet(obj.term_correlation_function_left, tL, tR, is_, jfix)
             d = dict(items(row))
-            m.cmp('term_correlation_function_left', got, [hm.gi(d[i]) for i in is_], den, left=' '.join(x[0] for x in tL),
-                  right=' '.join(x[0] for x in tR))
+            m.cmp('term_correlation_function_left', got, [hm.gi(d[i]) * half_factor(kinds, tL, i) * half_factor(kinds, tR, jfix) for i in is_], den,
+                  left=' '.join(x[0] for x in tL), right=' '.join(x[0] for x in tR))
+    # ---- correlation functions of term lists (sums of terms with prefactors)
+    tlc = tab.get('tlc', {})
+    row = dict(items(tlc.get('val', [])))
+    if row:
+        js = sorted(row)
+        Lt = [[(x[0], x[1]) for x in t] for t in tlc['tl']]
+        Rt = [[(x[0], x[1]) for x in t] for t in tlc['tr']]
+        sL = np.array([float(x) for x in tlc['sL']])
+        sR = np.array([float(x) for x in tlc['sR']])
+        keepL, keepR = sL.copy(), sR.copy()
+        for rnd in range(2):
+            got = hm.quiet(obj.term_list_correlation_function_right, TermList(Lt, sL), TermList(Rt, sR), 0, js)
+            m.cmp('term_list_correlation_function_right', got, [hm.gi(row[j]) for j in js], den, rtol=1e-9, evaluation=rnd,
+                  ops=' '.join(t[0][0] for t in Lt + Rt))
+            if not (np.array_equal(sL, keepL) and np.array_equal(sR, keepR)):
+                rp.violation('term_list_correlation_function_right', 'caller-array-modified', dict(sL=sL.tolist(), sR=sR.tolist()), evaluation=rnd)
+                m.ok = False
+                break
 
 
 def h_measure(rp, l, o):
